@@ -15,6 +15,11 @@ def main(argv):
                                 include=[os.path.join(os.path.realpath(os.environ.get('VERIF_REPO', '/repo')),
                                                       'pylatexenc', '*')])
         cov.start()
+    argreach = None
+    if os.environ.get('VERIF_ARGREACH'):
+        # reach diagnostic only (tools/argreach.sh): which values every parameter of the library's functions takes
+        argreach = _ArgReach(os.path.join(os.path.realpath(os.environ.get('VERIF_REPO', '/repo')), 'pylatexenc'))
+        sys.setprofile(argreach)
     import pylatexenc
     repo = os.path.realpath(os.environ.get('VERIF_REPO', '/repo'))
     where = os.path.realpath(pylatexenc.__file__)
@@ -35,9 +40,64 @@ def main(argv):
     if cov is not None:
         cov.stop()
         cov.save()
+    if argreach is not None:
+        sys.setprofile(None)
+        os.makedirs(os.environ['VERIF_ARGREACH'], exist_ok=True)
+        with open(os.path.join(os.environ['VERIF_ARGREACH'], '%s.%d.json' % (pid, os.getpid())), 'w') as f:
+            json.dump({k: {a: sorted(v) for a, v in d.items()} for k, d in argreach.seen.items()}, f)
     with open(fout, 'w') as f:
         json.dump(rec.dump(), f, default=repr)
     return rc
+
+
+class _ArgReach(object):
+    """sys.setprofile callback: per function of the library, the set of value classes seen for each parameter."""
+    def __init__(self, root):
+        self.root = root
+        self.seen = {}
+        self.skip = set()
+
+    @staticmethod
+    def bucket(v):
+        if v is None or v is True or v is False:
+            return repr(v)
+        if isinstance(v, int):
+            return 'int:%d' % v if -1 <= v <= 3 else 'int'
+        if isinstance(v, str):
+            return 'str:%r' % v if len(v) <= 12 else 'str'
+        if isinstance(v, (list, tuple, dict, set)):
+            return '%s[%s]' % (type(v).__name__, 'empty' if not v else 'n')
+        if callable(v) and not isinstance(v, type):
+            return 'callable'
+        return type(v).__name__
+
+    def __call__(self, frame, event, arg):
+        if event != 'call':
+            return
+        co = frame.f_code
+        if co in self.skip:
+            return
+        fn = co.co_filename
+        if not fn.startswith(self.root):
+            self.skip.add(co)
+            return
+        n = co.co_argcount + co.co_kwonlyargcount
+        key = '%s:%s:%d' % (fn[len(self.root) + 1:], co.co_name, co.co_firstlineno)
+        d = self.seen.setdefault(key, {})
+        loc = frame.f_locals
+        names = list(co.co_varnames[:n])
+        if co.co_flags & 0x08:      # **kwargs
+            kwname = co.co_varnames[n + (1 if co.co_flags & 0x04 else 0)]
+            for k, v in (loc.get(kwname) or {}).items():
+                s = d.setdefault('**' + k, set())
+                if len(s) < 12:
+                    s.add(self.bucket(v))
+        for a in names:
+            if a in ('self', 'cls'):
+                continue
+            s = d.setdefault(a, set())
+            if len(s) < 12:
+                s.add(self.bucket(loc.get(a)))
 
 
 def rng_for(desc, extra=''):
